@@ -67,6 +67,27 @@ def node_failures(sp, dt, order):
         out.append("normal-matrix-shape")
     elif not np.linalg.norm(Nm - ref) <= tol(dt) * scale:
         out.append("normal")
+    else:
+        # "for all x": the same must hold for REAL-dtype x (single-precision comparison: fft computes real input in
+        # complex64) and for x held in a non-C memory layout; an operator that rejects real input is skipped
+        try:
+            with warnings.catch_warnings():
+                warnings.simplefilter("ignore")
+                Nr = LO.mat_real(Nop, Nop.ishape, dt)
+            rs = max(scale, LO.tree_opscale(sp, dt) ** 2)
+            if Nr is not None and (Nr.shape != ref.shape or not np.linalg.norm(Nr - ref) <= 2e-4 * rs):
+                out.append("normal:real-x")
+            if len(op.ishape) >= 2:
+                rng = np.random.default_rng(A.prod(op.ishape))
+                x = (rng.standard_normal(op.ishape) + 1j * rng.standard_normal(op.ishape)).astype(dt)
+                with warnings.catch_warnings():
+                    warnings.simplefilter("ignore")
+                    yf = np.asarray(Nop(np.asfortranarray(x))).astype(np.complex128).ravel()
+                if yf.shape != (ref.shape[0],) or not np.linalg.norm(yf - ref @ x.ravel().astype(np.complex128)) <= \
+                        10 * tol(dt) * rs * max(np.linalg.norm(x.ravel()), 1e-30):
+                    out.append("normal:fortran-x")
+        except Exception as e:
+            out.append("raises:normal:probe:%s" % type(e.__cause__ or e).__name__)
     return out, ref
 
 
@@ -327,7 +348,8 @@ def big_failures(sp, dt, pseed):
                 # operands' scale: ||A^H|| ||A x|| is bounded below by the result; use the larger of the two routes
                 sc = max(np.linalg.norm(ref.ravel()), np.linalg.norm(y.ravel()), np.linalg.norm(np.asarray(Ax, dtype=np.complex128).ravel()), 1e-30)
                 if not np.linalg.norm((y - ref).ravel()) <= 10 * tol(dt) * sc:
-                    sc = max(sc, LO.tree_opscale(sp, dt) ** 2 * np.linalg.norm(x.astype(np.complex128).ravel())) if A.prod(op.ishape) * A.prod(op.oshape) <= 40000 else sc
+                    # relative to the operands' magnitude when the result cancels (A x = 0 up to rounding)
+                    sc = max(sc, LO.tree_opscale_est(sp, dt, pseed) ** 2 * np.linalg.norm(x.astype(np.complex128).ravel()))
                 if not np.linalg.norm((y - ref).ravel()) <= 10 * tol(dt) * sc:
                     out.append("normal")
                     return out
